@@ -12,7 +12,8 @@ Lemma toph_init : forall (T : Type) (c : cfg) (t0 : T), TopH o_init (init c t0).
 Proof.
   intros T c t0 _ _.
   assert (Hs : Safe (init c t0)) by (intros k hr H; destruct k; discriminate).
-  split; [exact Hs|]. split; [reflexivity|]. split; [reflexivity|]. intros _.
+  split; [exact Hs|]. split; [intros k oi H; destruct k; discriminate|].
+  split; [reflexivity|]. split; [reflexivity|]. intros _.
   constructor; cbn; try (intros k oi H; destruct k; discriminate);
     try (intros k hr oi H; destruct k; discriminate); try (intros m []); try (intros id []);
     try constructor; try exact Hs.
@@ -21,8 +22,8 @@ Qed.
 Lemma needh_of_toph : forall (T : Type) o (s : @sstate T),
   TopH o s -> h_b1 (o_v o) = true -> h_stop (o_v o) = true -> NeedH o s.
 Proof.
-  intros T o s HT Hb Hs. destruct (HT Hs Hb) as (Hsafe & _ & _ & Hinv). constructor.
-  - intros Hc k hr oi Hk Hoi Hw. exact (invh_open_entry o s k hr oi (Hinv Hc) Hk Hoi Hw).
+  intros T o s HT Hb Hs. destruct (HT Hs Hb) as (Hsafe & Hopen & _ & _ & _). constructor.
+  - intros _ k hr oi Hk Hoi Hw. exact (opentrk_entry o s k hr oi Hopen Hk Hoi Hw).
   - intros k hr Hk Hst. exact (safe_running s k hr Hsafe Hk Hst).
 Qed.
 
